@@ -16,6 +16,7 @@
     it without one (the usual "ASCII stays as it is" shortcut) takes the plain path only through the true edge of an
     `is_ascii()` test: bytes 0x80..0xFF of a string without byte-order mark mean PDFDocEncoding to a reader, which is not
     Latin-1 (0xA0 is the Euro sign, 0x80..0x9F are punctuation, "þÿ" is read as a byte-order mark).
+ S3 octal escapes emitted by the string escapers are three digits (rule C09 S3).
  R3 the reader's text-string decoder recognises the FE FF mark the encoders emit.
 Not decided: equality of the decoded text; PDFDocEncoding fidelity of the non-BOM branch (C25).
 """
@@ -81,6 +82,8 @@ def central_string_encoding(ctx, enc):
 
 
 def run(ctx):
+    from . import C09
+    C09.check_octal_escapes(ctx, "S3")
     facts = ctx.facts
     enc = encoders(facts)
     ctx.counts["bom_emitting_functions"] = len(enc)
